@@ -41,10 +41,20 @@ class G:
 
 
 class Font(dict):
+    """TTFont stand-in (a donor in the glue jobs): glyph N is called glyphNNNNN."""
+
     def getGlyphName(self, gid):
         if isinstance(gid, core.SymNum):
             return f"glyph{gid}"  # token string: names stay symbolic
         return f"glyph{gid:05d}"
+
+    def getGlyphID(self, name):
+        return 0 if name == ".notdef" else int(name[len("glyph"):])
+
+    def getGlyphOrder(self):
+        names = {n for s in self["CBLC"].strikes for sub in s.indexSubTables for n in sub.names} if "CBLC" in self else set()
+        top = max([self.getGlyphID(n) for n in names], default=0)
+        return [".notdef"] + [f"glyph{i:05d}" for i in range(1, top + 1)]
 
 
 LENS = [37, 120, 5, 64, 91]
